@@ -58,7 +58,7 @@ func short(r blob.Ref) string {
 
 func main() {
 	ev.Main("C07", "exploration",
-		"generated permanodes with 1-14 set/add/del claims (multi-valued, repeated values, values and attribute NAMES needing escaping, two signers, sub-second dates, two claims inside one second, equal dates on different attributes, one pre-1970 date) and delete/undelete chains on claims and permanodes (incl. two deleters of one target), delivered out of date order; plus a round-5 family: clusters of claims inside one second whose RFC 3339 date strings (none / 1..9 fractional digits) do not sort chronologically, and histories delivered in 2-3 parts with a re-open of the index over the same rows between the parts (corpus re-loaded then extended incrementally; classic likewise), later parts deleting (un)delete claims of earlier parts, IsDeleted judged after every part; a reference claim-folding model written from doc/schema/{permanode,delete}.md is compared with: corpus built incrementally, corpus loaded from rows (AppendPermanodeAttrValues, PermanodeAttrValue, PermanodeHasAttrValue, PermanodeModtime, IsDeleted), index rows with and without corpus (AppendClaims membership, claim fields, attrFilter, and the claims folded by the harness at every T; IsDeleted; PathLookup/PathsLookup/PathsOfSignerTarget for camliPath attributes), search Describe(At) and Query (PermanodeConstraint Attr+Value, NumValue, ValueInSet, Relation child/parent, SkipHidden; all with At) at times before/between/exactly-at/after the claim dates and zero, with and without signer filter; distinct = (world, permanode, attr, time, signer, path); non-trivial = the permanode has at least 2 claims on the attribute or a deleted claim",
+		"generated permanodes with 1-14 set/add/del claims (multi-valued, repeated values, values and attribute NAMES needing escaping, two signers, sub-second dates, two claims inside one second, equal dates on different attributes, one pre-1970 date) and delete/undelete chains on claims and permanodes (incl. two deleters of one target), delivered out of date order; plus a round-5 family: clusters of claims inside one second whose RFC 3339 date strings (none / 1..9 fractional digits) do not sort chronologically, and histories delivered in 2-3 parts with a re-open of the index over the same rows between the parts (corpus re-loaded then extended incrementally; classic likewise), later parts deleting (un)delete claims of earlier parts, IsDeleted judged after every part; a round-6 family: several permanodes sharing one value of an indexed attribute (tag/title/camliRoot/camliImportRoot), the newest claims giving it deleted while an older one of the same permanode stands, a permanode whose only such claim is deleted, a value set, changed and set again; the attr=value lookup on the sorted rows (Index.SearchPermanodesWithAttr, every signer incl. an unknown one, every value incl. an absent one and 'any value', At = zero / at / 1 ns before every claim date, MaxResults 1-3) is judged in every world against 'a non-deleted set/add claim of that signer giving exactly that value, dated no later than At, is attached to a non-deleted permanode'; a reference claim-folding model written from doc/schema/{permanode,delete}.md is compared with: corpus built incrementally, corpus loaded from rows (AppendPermanodeAttrValues, PermanodeAttrValue, PermanodeHasAttrValue, PermanodeModtime, IsDeleted), index rows with and without corpus (AppendClaims membership, claim fields, attrFilter, and the claims folded by the harness at every T; IsDeleted; PathLookup/PathsLookup/PathsOfSignerTarget for camliPath attributes), search Describe(At) and Query (PermanodeConstraint Attr+Value, NumValue, ValueInSet, Relation child/parent, SkipHidden; all with At) at times before/between/exactly-at/after the claim dates and zero, with and without signer filter; distinct = (world, permanode, attr, time, signer, path); non-trivial = the permanode has at least 2 claims on the attribute or a deleted claim",
 		run)
 }
 
@@ -200,8 +200,48 @@ func run(r *ev.Run) {
 		}
 		jobs <- job{w, wid, ord, phases}
 	}
+	// Round-6 family (own PRNG stream, own case ids): histories for the attr=value lookup on the
+	// sorted rows (hw.C07Extra.WithAttrRows): several permanodes sharing one value of an indexed
+	// attribute, the newest claims giving it deleted while an older one stands, a value set again
+	// after a change; some of them delivered in parts with a re-open.
+	nR6 := r.Pick(90, 600)
+	r6rng := r.Rand("c07round6")
+	for j := 0; j < nR6; j++ {
+		wo := hw.WorldOpts{TwoSigners: j%3 == 1, Label: fmt.Sprintf("c07r6w%d", j), NoFiles: true, NoEmptyValues: true,
+			Permanodes: 1 + j%4, MaxClaims: []int{2, 4, 8}[(j/4)%3], Deletes: j % 3, PlainAttrsOnly: j%2 == 0}
+		w := hw.GenWorld(r6rng, wo)
+		x := hw.C07Extra{WithAttrRows: true, RepeatedValues: j%5 == 1, TwoDeleters: j%7 == 3, ExtraDeletes: j % 3, Pins: map[blob.Ref]int{}}
+		hw.ExtendC07(w, rand.New(rand.NewSource(r6rng.Int63())), x)
+		prng := rand.New(rand.NewSource(r6rng.Int63()))
+		wid := fmt.Sprintf("r6w%d;", j)
+		var ord []int
+		switch j % 3 {
+		case 0:
+			ord = dateOrder(w, false)
+		case 1:
+			ord = dateOrder(w, true)
+		default:
+			ord = prng.Perm(len(w.Blobs))
+		}
+		var phases []int
+		if j%5 == 4 {
+			phases = hw.C07Phases(w, prng, 2, x.Pins)
+		}
+		if !r.Only(wid) {
+			continue
+		}
+		r.Note("delivery_modes", "round6")
+		for f := range w.Features {
+			r.Note("world_features", f)
+		}
+		jobs <- job{w, wid, ord, phases}
+	}
 	close(jobs)
 	wg.Wait()
+	r.Require("world_features", "c07-withattr-newest-row-deleted", "c07-withattr-value-set-again")
+	r.Require("paths", "with-attr-corpus-live", "with-attr-corpus-loaded", "with-attr-classic", "with-attr-any-value-classic", "with-attr-maxresults-classic")
+	r.Require("withattr", "newest-claim-of-a-returned-permanode-is-deleted", "newest-claim-of-a-returned-permanode-is-dated-after-T", "newest-row-of-the-value-is-rejected/max-results",
+		"several-permanodes-returned", "deleted-permanode-not-returned", "only-claim-deleted-not-returned", "second-signer", "unknown-signer", "value-needs-escaping", "historical-T")
 	r.Require("world_features", "claim-set-attribute", "claim-add-attribute", "claim-del-attribute", "delete-of-claim", "delete-of-delete", "delete-of-permanode", "two-signers", "subsecond-date", "foreign-signer-claim",
 		"c07-escaped-attr-name", "c07-repeated-value-del", "c07-same-second-pair", "c07-cross-attr-date-tie", "c07-defvis-history", "c07-two-deleters", "c07-pre-1970-claim", "c07-path-chain", "c07-deep-delete-chain",
 		"c07-lexical-date-order", "c07-reopen-chain")
@@ -813,6 +853,7 @@ func checkWorld(r *ev.Run, w *hw.World, wid string, ord []int, phases []int, smu
 		c.checkPathRows(pn, attrs, times)
 	}
 	c.checkPathsOfTarget()
+	c.checkWithAttr()
 	smu.Lock()
 	if *sampled < 4 && len(w.Claims) > 3 {
 		*sampled++
@@ -1167,6 +1208,243 @@ func (c *wc) checkPathsOfTarget() {
 					r.Violation(class+"/"+site, fmt.Sprintf("%s: %s lists %s, whose value is not the target now", c.wid, q, k), c.rec(q, keys(want), keys(got)))
 				}
 			}
+		}
+	}
+}
+
+// withAttrIndexed: the attributes for which attr=value rows are kept (index.IsIndexedAttribute).
+var withAttrIndexed = []string{"tag", "title", "camliRoot", "camliImportRoot"}
+
+// withAttrModel: the permanodes that have a set-/add-attribute claim of signer si attached that gives
+// attr the value val (any value if val is ""), is dated no later than at (zero: no bound) and is not
+// deleted (honor=false: deletions of CLAIMS are not honoured); deleted permanodes are never listed.
+func (c *wc) withAttrModel(si int, attr, val string, at time.Time, honor bool) []string {
+	set := map[string]bool{}
+	for _, ci := range c.w.Claims {
+		if (ci.Kind != hw.Set && ci.Kind != hw.Add) || ci.Signer != si || ci.Attr != attr {
+			continue
+		}
+		if val != "" && ci.Value != val {
+			continue
+		}
+		if !at.IsZero() && ci.Date.After(at) {
+			continue
+		}
+		if (honor && c.w.Deleted(ci.Ref)) || c.w.Deleted(ci.PN) {
+			continue
+		}
+		set[ci.PN.String()] = true
+	}
+	return keys(set)
+}
+
+// withAttr runs Index.SearchPermanodesWithAttr and returns the permanodes in the order sent.
+func (c *wc) withAttr(p path, signer blob.Ref, attr, val string, at time.Time, max int) ([]string, error) {
+	ch := make(chan blob.Ref, 64)
+	var got []string
+	done := make(chan struct{})
+	go func() {
+		for br := range ch {
+			got = append(got, br.String())
+		}
+		close(done)
+	}()
+	err := p.ix.SearchPermanodesWithAttr(c.ctx, ch, &camtypes.PermanodeByAttrRequest{Signer: signer, Attribute: attr, Query: val, At: at, MaxResults: max})
+	<-done
+	return got, err
+}
+
+// checkWithAttr judges the attr=value lookup on the sorted rows, Index.SearchPermanodesWithAttr
+// (behind search.Handler.GetPermanodesWithAttr, pkg/fs roots and versions — also with At).  Documented
+// meaning (pkg/index Interface: PermanodeOfSignerAttrValue finds a permanode "that has a corresponding
+// 'set-attribute' claim attached", SearchPermanodesWithAttr is "just like" it but returns "multiple
+// and dup-suppress[es]"; camtypes.PermanodeByAttrRequest: Query is "the attribute value to find
+// exactly", At "specifies that the attribute must have been set at the latest at At", MaxResults is
+// the "max results"; doc/schema/delete.md: a deleted claim or permanode is to be ignored):
+//   - with a value: exactly the non-deleted permanodes to which a non-deleted set-/add-attribute claim
+//     of that signer giving attr exactly that value, dated no later than At, is attached; each once;
+//   - with MaxResults = N > 0: N of them (all of them if there are fewer);
+//   - without a value ("the permanodes which have request.Attribute as an attribute, regardless of
+//     its value"): at least the permanodes whose folded value list for attr at At is not empty, at most
+//     those with some such claim (the sentence can be read either way), each once.
+func (c *wc) checkWithAttr() {
+	w, r := c.w, c.r
+	type sel struct {
+		num int
+		ref blob.Ref
+	}
+	var signers []sel
+	for i, s := range w.Signers {
+		signers = append(signers, sel{i + 1, s.PubRef})
+	}
+	if len(w.Signers) == 1 {
+		signers = append(signers, sel{2, hw.NewSigner(2).PubRef}) // a key the index has never seen
+	}
+	for _, sg := range signers {
+		for _, attr := range withAttrIndexed {
+			var cs []hw.ClaimInfo
+			for _, ci := range w.Claims {
+				if (ci.Kind == hw.Set || ci.Kind == hw.Add) && ci.Attr == attr && ci.Signer == sg.num {
+					cs = append(cs, ci)
+				}
+			}
+			if len(cs) == 0 && !(attr == "tag" && sg.num == 2) {
+				continue
+			}
+			sort.SliceStable(cs, func(i, j int) bool { return cs[i].Date.After(cs[j].Date) }) // newest first, like the rows of one value
+			vals := []string{"", "verif-absent-value"}
+			seenVal := map[string]bool{}
+			for _, ci := range cs {
+				if !seenVal[ci.Value] && ci.Value != "" {
+					seenVal[ci.Value] = true
+					vals = append(vals, ci.Value)
+				}
+			}
+			times := []time.Time{{}}
+			for i, ci := range cs {
+				if len(cs) > 10 && i%2 == 1 {
+					continue
+				}
+				times = append(times, ci.Date, ci.Date.Add(-time.Nanosecond))
+			}
+			for _, val := range vals {
+				for _, at := range times {
+					want := c.withAttrModel(sg.num, attr, val, at, true)
+					alt := c.withAttrModel(sg.num, attr, val, at, false)
+					q := fmt.Sprintf("SearchPermanodesWithAttr(signer s%d, attr=%q, value=%q, at=%s)", sg.num, attr, val, at.Format(time.RFC3339Nano))
+					if val != "" {
+						c.noteWithAttr(sg.num, len(w.Signers), attr, val, at, cs, want)
+					}
+					for _, p := range c.paths {
+						got, err := c.withAttr(p, sg.ref, attr, val, at, 0)
+						if err != nil {
+							r.Eval(1)
+							r.Violation("with-attr-error/"+p.name, fmt.Sprintf("%s: %s: %v", c.wid, q, err), c.rec(q, want, err.Error()))
+							continue
+						}
+						sorted := append([]string(nil), got...)
+						sort.Strings(sorted)
+						for i := 1; i < len(sorted); i++ {
+							if sorted[i] == sorted[i-1] {
+								r.Violation("with-attr-duplicate/"+p.name, fmt.Sprintf("%s: %s sends %s more than once", c.wid, q, sorted[i]), c.rec(q, want, got))
+								break
+							}
+						}
+						if val == "" {
+							// any value: between "has a value now (at At)" and "was ever given one"
+							site := "with-attr-any-value-" + p.name
+							r.Eval(1)
+							r.Note("paths", site)
+							for _, pn := range w.Permanodes {
+								if w.Deleted(pn) {
+									continue
+								}
+								if len(w.Values(pn, attr, at, sg.num, true)) > 0 && !contains(sorted, pn.String()) {
+									r.Violation("mismatch/"+site, fmt.Sprintf("%s: %s does not list %s, whose value list for the attribute is not empty", c.wid, q, short(pn)), c.rec(q, want, got))
+								}
+							}
+							for _, g := range sorted {
+								if !contains(want, g) {
+									r.Violation("mismatch/"+site, fmt.Sprintf("%s: %s lists %s, to which no such claim is attached", c.wid, q, g), c.rec(q, want, got))
+								}
+							}
+							continue
+						}
+						if len(want) > 1 || len(cs) > 1 {
+							r.Distinct(c.wid + q + p.name)
+						}
+						c.verdict("with-attr-"+p.name, q, norm(want), norm(alt), norm(sorted))
+						for _, n := range []int{1, 2, 3} {
+							if n > len(want)+1 {
+								break
+							}
+							gotN, err := c.withAttr(p, sg.ref, attr, val, at, n)
+							site := "with-attr-maxresults-" + p.name
+							r.Eval(1)
+							r.Note("paths", site)
+							qn := fmt.Sprintf("%s MaxResults=%d", q, n)
+							if err != nil {
+								r.Violation("with-attr-error/"+p.name, fmt.Sprintf("%s: %s: %v", c.wid, qn, err), c.rec(qn, want, err.Error()))
+								continue
+							}
+							wantN := min(n, len(want))
+							bad := len(gotN) != wantN
+							seen := map[string]bool{}
+							for _, g := range gotN {
+								if seen[g] || !contains(want, g) {
+									bad = true
+								}
+								seen[g] = true
+							}
+							if bad {
+								r.Violation("mismatch/"+site, fmt.Sprintf("%s: %s = %q, want %d distinct of %q", c.wid, qn, gotN, wantN, want), c.rec(qn, want, gotN))
+							}
+						}
+					}
+				}
+			}
+		}
+	}
+}
+
+// noteWithAttr: evidence about which situations a valued lookup met (cs: the signer's set/add claims
+// on attr, newest first).
+func (c *wc) noteWithAttr(si, nSigners int, attr, val string, at time.Time, cs []hw.ClaimInfo, want []string) {
+	w, r := c.w, c.r
+	if si == 2 && nSigners == 2 {
+		r.Note("withattr", "second-signer")
+	}
+	if si == 2 && nSigners == 1 {
+		r.Note("withattr", "unknown-signer")
+	}
+	if strings.ContainsAny(val, " |%") {
+		r.Note("withattr", "value-needs-escaping")
+	}
+	if len(want) > 1 {
+		r.Note("withattr", "several-permanodes-returned")
+	}
+	if !at.IsZero() && len(cs) > 0 && at.Before(cs[0].Date) {
+		r.Note("withattr", "historical-T")
+	}
+	newest := map[blob.Ref]bool{}
+	firstRow := true
+	for _, ci := range cs {
+		if ci.Value != val {
+			continue
+		}
+		rejected := ""
+		switch {
+		case w.Deleted(ci.Ref):
+			rejected = "deleted"
+		case !at.IsZero() && ci.Date.After(at):
+			rejected = "dated-after-T"
+		}
+		if w.Deleted(ci.PN) {
+			r.Note("withattr", "deleted-permanode-not-returned")
+		} else if !newest[ci.PN] && rejected != "" && contains(want, ci.PN.String()) {
+			r.Note("withattr", "newest-claim-of-a-returned-permanode-is-"+rejected)
+		}
+		if firstRow && (rejected != "" || w.Deleted(ci.PN)) && len(want) > 0 {
+			r.Note("withattr", "newest-row-of-the-value-is-rejected/max-results")
+		}
+		firstRow = false
+		newest[ci.PN] = true
+	}
+	for _, pn := range w.Permanodes {
+		if w.Deleted(pn) || contains(want, pn.String()) {
+			continue
+		}
+		n, nd := 0, 0
+		for _, ci := range cs {
+			if ci.PN == pn && ci.Value == val {
+				n++
+				if w.Deleted(ci.Ref) {
+					nd++
+				}
+			}
+		}
+		if n > 0 && n == nd {
+			r.Note("withattr", "only-claim-deleted-not-returned")
 		}
 	}
 }
